@@ -291,7 +291,7 @@ func runC04Tree(c c04TreeCase) *Violation {
 
 func TestC04(t *testing.T) {
 	Ev.Level = "exploration"
-	Ev.Rule = "pure: (Go numeric value of any kind incl. named types) x (0-4 other values folded into the block range through ConvertToMinMaxInt64/UpdateMinMaxIndex, every rotation) x (NumericCondition, all operators, operands at value floor/ceil +-1 and int64 extremes) and random AND/OR prefilter trees over 3 keys + partition; oracle = math/big exact arithmetic. Non-trivial: the row's value satisfies the condition/tree AND (kind is not plain int/float64, or value non-integral, or |v|>=2^62, or infinite, or a block bound is saturated); distinct by (kind,value,range,condition) hash."
+	Ev.Rule = "pure: (Go numeric value of any kind incl. named types) x (0-4 other values folded into the block range through ConvertToMinMaxInt64/UpdateMinMaxIndex, every rotation) x (NumericCondition, all operators, operands at value floor/ceil +-1 and int64 extremes) and random AND/OR prefilter trees over 3 keys + partition; oracle = math/big exact arithmetic. e2e phase: engine histories (3-8 single-flush files of 1-3 rows with numbers of every kind under the indexed keys, one or two partitions, merged once or twice so block ranges are hulls of several source ranges) and prefilter queries with operands next to the stored values: every stored row whose own partition and exact values satisfy the tree must be returned. Non-trivial: the row's value satisfies the condition/tree AND (kind is not plain int/float64, or value non-integral, or |v|>=2^62, or infinite, or a block bound is saturated); distinct by (kind,value,range,condition) hash."
 	Ev.Assumptions = []string{"NaN imposes no obligation (documented as not indexed)", "block ranges are built with the library's own ConvertToMinMaxInt64/UpdateMinMaxIndex in ingest order (all rotations)"}
 	runChecks(t, "cond", 40000, 1500000, genC04Cond(), runC04Cond)
 	runChecks(t, "tree", 10000, 400000, genC04Tree(), runC04Tree)
